@@ -376,7 +376,7 @@ st_data = st.fixed_dictionaries({
 _st_cli_opts = (
     st.sampled_from(sorted(pipeline.REL_CLI)),
     st.sampled_from(["none", "align", "origin"]), st.booleans(), st.sampled_from([-1, -1, 3, 5, 10]), st.sampled_from([None, None, 3, 10, 1000, "n", "n+2"]),
-    st.sampled_from([None, None, [0.1, 5.0], [1.0, 0.5], [0.0, 0.0]]), st.sampled_from([0.01, 0.01, 0.005, 0.02, 0.0]),
+    st.sampled_from([None, None, [0.1, 5.0], [1.0, 0.5], [0.0, 0.0]]), st.sampled_from([0.01, 0.01, 0.005, 0.02, 0.01, 0.01, 0.005, 0.0]),
     st.sampled_from([0.0, 0.0, 0.5, -2.25]), st.one_of(st.none(), st.tuples(st.integers(0, 40), st.integers(0, 40), st.booleans(), st.booleans())),
     st.sampled_from([None, None, "xy", "xz", "yz"]), st.sampled_from([None, None, "mm", "cm", "km"]),
     st.one_of(st.none(), st.none(), st.none(), st.none(), st.none(), st.fixed_dictionaries({
@@ -385,10 +385,14 @@ _st_cli_opts = (
 
 
 @st.composite
-def st_cli(draw, force_plot=False, force_crop=False):
+def st_cli(draw, force_plot=False, force_crop=False, plain=False):
     fmt = draw(st.sampled_from(["tum", "tum", "euroc", "kitti"]))
     data = draw(st_data)
     case = _mk_cli_case(fmt, data, *[draw(x) for x in _st_cli_opts])
+    if plain:
+        # no pre-processing options: for checks that look at one other option group of the tool
+        case["opts"].update(align=False, align_origin=False, correct_scale=False, n_to_align=-1, downsample=None, motion_filter=None,
+                            t_max_diff=0.01, t_start=None, t_end=None, project=None, plot=None)
     if force_plot and not case["opts"].get("plot"):
         case["opts"]["plot"] = {"x": draw(st.sampled_from(["index", "seconds", "distances"])), "mode": draw(st.sampled_from(["xy", "xyz"])),
                                 "pct": draw(st.sampled_from([None, 50, 90])), "cmin": None, "len_unit": draw(st.sampled_from([None, "km", "mm"]))}
